@@ -12,7 +12,7 @@ import (
 func init() {
 	Drivers["C15"] = driveC15
 	Levels["C15"] = "exploration"
-	Rules["C15"] = "one run = 1-3 generated schemas with defaults of every JSON type at depth <=3 (with and without required, on object and non-object subschemas, object-valued defaults that need nested completion) and two instances (any subset of the properties present, non-objects at any position, undeclared keys), driven through a history of 4-10 steps: ApplyDefaults(R_j), apply again, client edits (delete a key, set a key, replace a subtree, mutate in place a container that an earlier application inserted), switch instance; the whole history is repeated under 4 map-order schedules. Oracles (relational checker written from the property text): everything present before is present and equal after; every new key is a non-required declared property whose value is the declared default completed only by legitimate insertions, or a container that transitively holds >=1 declared default; a second application changes nothing; the states are identical under every schedule; Resolve(ValidateDefaults) succeeds iff every default validates against its declaring subschema resolved on its own. Non-trivial = a step inserted >=1 default at depth >=2 into an instance that already had sibling values. Distinct = hash(schemas, instances, history) x order-vector hash."
+	Rules["C15"] = "one run = 1-3 generated schemas with defaults of every JSON type at depth <=3 (with and without required, on object and non-object subschemas, object-valued defaults that need nested completion) and two instances (any subset of the properties present, non-objects at any position, undeclared keys), driven through a history of 4-10 steps: ApplyDefaults(R_j), apply again, client edits (delete a key, set a key, replace a subtree, mutate in place a container that an earlier application inserted), switch instance, schema evolution (the Schema in use or a CloneSchemas copy is edited and resolved again); a third of the applications go through a typed holder (map[string]map[string]any, map[string][]any, map[string]json.RawMessage) that the client wipes afterwards; schemas may carry dependentSchemas with defaults of their own; the whole history is repeated under 4 map-order schedules. Oracles (relational checker written from the property text): everything present before is present and equal after; every new key is a non-required declared property whose value is the declared default completed only by legitimate insertions, or a container that transitively holds >=1 declared default; a second application changes nothing; the states are identical under every schedule; Resolve(ValidateDefaults) succeeds iff every default validates against its declaring subschema resolved on its own. Non-trivial = a step inserted >=1 default at depth >=2 into an instance that already had sibling values. Distinct = hash(schemas, instances, history) x order-vector hash."
 	Assumptions["C15"] = append([]string{
 		"the checker demands that what is inserted is legitimate, not that everything possible is inserted (a no-op ApplyDefaults does not violate the property as written); how many defaults were filled is a statistic",
 		"instances are canonical encoding/json values held in an `any` through a pointer; typed holders, whose mismatches are documented to panic, are not generated",
